@@ -12,6 +12,9 @@ import (
 
 type deferEntry struct {
 	run func(st *State) []*Out
+	// guard: the defer was registered on only some of the paths merged into this state;
+	// it runs exactly when guard holds (zero Term: always)
+	guard Term
 }
 
 type State struct {
@@ -78,6 +81,9 @@ func (s *State) clone() *State {
 	n.clock = s.clock
 	return n
 }
+
+// dead reports whether a literally false fact has been assumed on this path.
+func (s *State) dead() bool { return s.facts["false"] }
 
 func (s *State) assume(t Term) {
 	if t.IsTrue() {
@@ -452,6 +458,17 @@ func (u *Unit) sliceFacts2(st *State, v Value) {
 	}
 }
 
+// nameHeap gives a large heap term a name: nested stores mention the previous array twice, so
+// unnamed terms double in size with every write.
+func (u *Unit) nameHeap(st *State, t Term) Term {
+	if len(t.S) <= 320 {
+		return t
+	}
+	n := u.d.Fresh("hs", t.Sort)
+	st.assume(Eq(n, t))
+	return n
+}
+
 // nameBig replaces large leaf terms by fresh constants defined equal to them, which keeps
 // verification conditions small (values are shared instead of being copied into every use).
 func (u *Unit) nameBig(st *State, v Value, hint string) Value {
@@ -519,7 +536,7 @@ func (u *Unit) store(st *State, lv LV, v Value) {
 			cl.Path += suf
 			key := u.leafKey(lv, cl)
 			arr := u.heapArr(st, key, ArrSort(SInt, wrapArr(l.Sort, len(lv.arrIdx))))
-			st.heap[key] = Store(arr, lv.ref, storeIdx(Select(arr, lv.ref), lv.arrIdx, v.L[i]))
+			st.heap[key] = u.nameHeap(st, Store(arr, lv.ref, storeIdx(Select(arr, lv.ref), lv.arrIdx, v.L[i])))
 		}
 	case lvMem:
 		for i, l := range ls {
@@ -528,14 +545,14 @@ func (u *Unit) store(st *State, lv LV, v Value) {
 			key := u.leafKey(lv, cl)
 			arr := u.heapArr(st, key, ArrSort(SInt, ArrSort(SInt, wrapArr(l.Sort, len(lv.arrIdx)))))
 			row := Select(arr, lv.ref)
-			st.heap[key] = Store(arr, lv.ref, Store(row, lv.idx, storeIdx(Select(row, lv.idx), lv.arrIdx, v.L[i])))
+			st.heap[key] = u.nameHeap(st, Store(arr, lv.ref, Store(row, lv.idx, storeIdx(Select(row, lv.idx), lv.arrIdx, v.L[i]))))
 		}
 	case lvMap:
 		ksort := flatten(lv.mapT.Key())[0].Sort
 		for i, l := range ls {
 			key := u.leafKey(lv, l)
 			arr := u.heapArr(st, key, ArrSort(SInt, ArrSort(ksort, l.Sort)))
-			st.heap[key] = Store(arr, lv.ref, Store(Select(arr, lv.ref), lv.idx, v.L[i]))
+			st.heap[key] = u.nameHeap(st, Store(arr, lv.ref, Store(Select(arr, lv.ref), lv.idx, v.L[i])))
 		}
 		dk := "MD:" + lv.keyT
 		dom := u.heapArr(st, dk, ArrSort(SInt, ArrSort(ksort, SBool)))
